@@ -43,66 +43,6 @@ theorem resolve_view (mv : Loc → TxId → Option Entry) (W : TxId → List (Lo
       simp only [hi.2 hm]
       exact ih (fun j hj => h j (by omega))
 
-/-- No step touches a finalized transaction. -/
-theorem step_frozen {P : Params} {s s' : State} (h1 : Inv1 P s) (hs : Step P s s') (j : TxId)
-    (hj : j < s.fin) : s'.result j = s.result j ∧ s'.status j = s.status j ∧ j < s'.fin := by
-  have hidle := h1.fin_idle hj
-  have hfin := (h1.fin_status j).mpr hj
-  have key : ∀ i, s.phase i ≠ .idle → j ≠ i := by
-    intro i hne hc; subst hc; exact hne hidle
-  cases hs with
-  | claimExec i hi hp hst =>
-    have : j ≠ i := by
-      intro hc; subst hc
-      rcases hst with h' | h' <;> rw [h'] at hfin <;> cases hfin
-    exact ⟨rfl, by simp [updF, this], hj⟩
-  | execReadMv i l k reads blocked j' e hp hr => exact ⟨rfl, rfl, hj⟩
-  | execReadBase i l k reads blocked hp hr => exact ⟨rfl, rfl, hj⟩
-  | execFinishOk i w o reads blocked hp => exact ⟨rfl, rfl, hj⟩
-  | execFinishErr i e reads blocked hp => exact ⟨rfl, rfl, hj⟩
-  | publishOne i run l todo newLoc v hp hl hv => exact ⟨rfl, rfl, hj⟩
-  | endPublish i run newLoc hp => exact ⟨rfl, rfl, hj⟩
-  | removeOne i run l todo newLoc hp hl => exact ⟨rfl, rfl, hj⟩
-  | recordBlocked i run newLoc hp hb =>
-    have := key i (by rw [hp]; simp)
-    exact ⟨by simp [setPhase, updF, this], rfl, hj⟩
-  | recordRewind i run newLoc handoff hp hb hn =>
-    have := key i (by rw [hp]; simp)
-    exact ⟨by simp [setPhase, updF, this], rfl, hj⟩
-  | recordDirect i run hp hb =>
-    have := key i (by rw [hp]; simp)
-    exact ⟨by simp [updF, this], by simp [updF, this], hj⟩
-  | markErrSome i e ow l todo en hp hl hm => exact ⟨rfl, rfl, hj⟩
-  | markErrNone i e ow l todo hp hl hm => exact ⟨rfl, rfl, hj⟩
-  | markValSome i l todo en hp hl hm => exact ⟨rfl, rfl, hj⟩
-  | markValNone i l todo hp hl hm => exact ⟨rfl, rfl, hj⟩
-  | endErrMark i e ow hp =>
-    have := key i (by rw [hp]; simp)
-    exact ⟨by simp [updF, this], rfl, hj⟩
-  | tailTs i k st hp hk => exact ⟨rfl, rfl, hj⟩
-  | tailSkip i k st hp hk =>
-    have := key i (by rw [hp]; simp)
-    exact ⟨rfl, by simp [updF, this], hj⟩
-  | tailLts i k ts st hp =>
-    have := key i (by rw [hp]; simp)
-    exact ⟨rfl, by simp [updF, this], hj⟩
-  | claimVal i hp hst =>
-    have : j ≠ i := by
-      intro hc; subst hc
-      rcases hst with h' | h' <;> rw [h'] at hfin <;> cases hfin
-    exact ⟨rfl, by simp [updF, this], hj⟩
-  | valTs i r hp hr => exact ⟨rfl, rfl, hj⟩
-  | valCheck i ts done r todo conflict k hp hk => exact ⟨rfl, rfl, hj⟩
-  | endScanConflict i ts done hp => exact ⟨rfl, rfl, hj⟩
-  | endScanOk i ts done hp =>
-    have := key i (by rw [hp]; simp)
-    exact ⟨rfl, by simp [updF, this], hj⟩
-  | endValMark i hp => exact ⟨rfl, rfl, hj⟩
-  | finalize hi hp hst hg =>
-    have : j ≠ s.fin := by omega
-    exact ⟨rfl, by simp [updF, this], by show j < s.fin + 1; omega⟩
-  | commit r hc hr => exact ⟨rfl, rfl, hj⟩
-
 /-- The heart of the safety argument: at the instant a transaction is finalized, its recorded run
     is its in-order run. -/
 theorem finalize_sound {P : Params} {s : State} (h1 : Inv1 P s) (h2 : Inv2 s) (h3 : Inv3 P s)
@@ -159,7 +99,25 @@ theorem finalize_sound {P : Params} {s : State} (h1 : Inv1 P s) (h2 : Inv2 s) (h
       rw [hres] at hro
       simp at hro
       rw [hro] at hprov
-      simpa using hprov
+      simp only [] at hprov
+      obtain ⟨c, hc, hval⟩ := hprov
+      -- the fetch saw a committed cache in which no transaction below `c ≤ com ≤ fin` wrote the
+      -- location (else the column of that transaction would hold an entry and resolution would
+      -- not miss), i.e. the block-start value
+      have hbase : cval P s c rr.loc = P.base rr.loc := by
+        apply cval_base
+        intro j hj rj hrj w o ho
+        have hjf : j < s.fin := by have := h1.com_le.1; omega
+        have hshj := (h2 j).shape
+        unfold Shape at hshj
+        rw [h1.fin_idle hjf] at hshj
+        simp only [(h1.fin_status j).mpr hjf] at hshj
+        obtain ⟨rj', hrj', hokj, hclj⟩ := hshj
+        rw [hrj] at hrj'; cases hrj'
+        obtain ⟨o', ho'⟩ := hokj
+        rw [ho] at ho'; cases ho'
+        exact lookup_none_iff.mpr (hclj.2 rr.loc (resolve_none hres j hjf))
+      simp only [hval, hbase]
     | some p =>
       obtain ⟨k, e⟩ := p
       rw [hres] at hro
@@ -203,7 +161,8 @@ theorem inv5_step {P : Params} {s s' : State} (h1 : Inv1 P s) (h2 : Inv2 s) (h3 
     simp [← hrun, toRun]
   | claimExec i hi hp hst => exact ⟨hold, h.outcomes⟩
   | execReadMv i l k reads blocked j' e hp hr => exact ⟨hold, h.outcomes⟩
-  | execReadBase i l k reads blocked hp hr => exact ⟨hold, h.outcomes⟩
+  | execReadMiss i l k reads blocked hp hr => exact ⟨hold, h.outcomes⟩
+  | execFetch i l k reads blocked hp => exact ⟨hold, h.outcomes⟩
   | execFinishOk i w o reads blocked hp => exact ⟨hold, h.outcomes⟩
   | execFinishErr i e reads blocked hp => exact ⟨hold, h.outcomes⟩
   | publishOne i run l todo newLoc v hp hl hv => exact ⟨hold, h.outcomes⟩
@@ -234,7 +193,7 @@ theorem inv_reach {P : Params} {s : State} (h : Reach P s) :
   | init => exact ⟨inv1_init P, inv2_init, inv3_init P, inv4_init, inv5_init P⟩
   | step _ hs ih =>
     obtain ⟨i1, i2, i3, i4, i5⟩ := ih
-    exact ⟨inv1_step i1 hs, inv2_step i1 i2 hs, inv3_step i2 i3 hs, inv4_step i1 i2 i4 hs,
+    exact ⟨inv1_step i1 hs, inv2_step i1 i2 hs, inv3_step i1 i2 i3 hs, inv4_step i1 i2 i4 hs,
       inv5_step i1 i2 i3 i4 i5 hs⟩
 
 end Grevm.Sched
